@@ -227,8 +227,8 @@ class Prop:
     RULE = ("seeded random histories (3-25 ops over 16 mutators, lengths 0-7, "
             "int indices in [-len-3,len+3], slices with None/oversized/negative "
             "start/stop and steps in {None,+-1,+-2,+-3,+-(len+1),0}, valid/"
-            "coercible/invalid items, validator faults at the k-th item, raising "
-            "iterables) against a built-in list; a run is non-trivial if at least "
+            "coercible/invalid items handed over as list, tuple, generator, iterator "
+            "or map object, validator faults at the k-th item, raising iterables) against a built-in list; a run is non-trivial if at least "
             "one op changed the contents and an event was checked by the replay "
             "law; distinct = distinct abstract traces (op kind, index/slice "
             "class, outcome class, fault fired, event shape per op)")
